@@ -125,7 +125,7 @@ func (mp *MotionProcessor) Process(rawFrame []byte) error {
 }
 
 func (mp *MotionProcessor) processSnapshot(frame *cptvframe.Frame) {
-	if mp.StartSnapshot {
+	if mp.StartSnapshot && !mp.SnapshotRecording {
 		mp.log.Printf("making a snapshot")
 		mp.StartSnapshot = false
 		if err := mp.snapshotRecorder.StartRecording(mp.motionDetector.background, 0); err != nil {
